@@ -41,14 +41,19 @@ MANIFEST = {
                  "and call options against a float64 Kabsch/SVD oracle with a derived float32 error bound",
     "text": "Families {generic cloud, bonded-density cluster, near-identical pair (1e-4 nm), near-planar, exact mirror "
             "image, helix-like curve, offsets 100 and 500 nm} x n_atoms in {3,4,5,7,64,65} (thorough: 3..13,16,17,63,64,"
-            "65,1001: every remainder mod 4) x 9 (30) rotations incl. the cube group x translations {0,0.37,10,300} nm x "
-            "reference frame {0,2} ({0,1,2}) x (atom_indices, ref_atom_indices) in {None, equal subsets, same set in "
+            "65,1001: every remainder mod 4) x 12 (30) rotations incl. identity, the axis and diagonal half-turns (the whole "
+            "cube group) x translations {0,0.37,10,300} nm x reference frame {0,2,3} ({0,1,2,3}; frame 3 is the target base "
+            "itself, so every target frame is a rigidly moved copy of it and an EXACT one under the cube rotations: exactly "
+            "degenerate optima, quaternions (0,1,0,0), (0,0,1,0), (0,0,0,1) and the diagonal half-turns, RMSD* = 0) x "
+            "(atom_indices, ref_atom_indices) in {None, equal subsets, same set in "
             "different order, different sets and atom counts} x parallel x precentered; every md.rmsd value is compared "
             "with the float64 minimum over proper rotations (|rmsd^2-msd*| <= (9+ceil(N/4)) eps32 (Ga+Gb)/N + centring "
             "term), plus the stated relations (zero on itself, symmetry, rigid motion of target and of reference, parallel "
             "flag); Trajectory.superpose: reference untouched, every interatomic distance kept, proper motion, un-fitted "
             "RMSD of the alignment atoms equals the minimum; md.lprmsd with fixed labels, md.rmsf and "
-            "geometry.alignment against their docstring definitions. Right level: optimality over a continuous set can "
+            "geometry.alignment against their docstring definitions. C2 dimers (exact on a 2^-14 nm grid): subunit B = half-turn "
+            "image of subunit A about x, y, z through 2 centres x 4 translations x 2 index layouts x all n; rmsd(B onto A) "
+            "and superpose(atom_indices=B, ref_atom_indices=A) must bring B onto A (and A onto B) rigidly. Right level: optimality over a continuous set can "
             "only be sampled, so the sample is a designed product with one member per shortcut in the code (SIMD "
             "remainders, handedness, 180-degree rotations, scale, cancellation regime).",
     "note": "Trusted: numpy float64 SVD. Optimality is checked on this finite family only. OpenMP team of 3 threads "
@@ -161,7 +166,7 @@ class _Acc:
         self.evals += ratio.size
         self.counts[check] = self.counts.get(check, 0) + ratio.size
         bad = ~(ratio <= 1.0)                                   # NaN counts as a violation
-        reg = (cls == "regular") & ~bad                         # margin: largest accepted err/tol (violations are reported)
+        reg = ~bad                                              # margin: largest accepted err/tol (violations are reported)
         if reg.any():
             self.margin[check] = max(self.margin.get(check, 0.0), float(np.max(np.where(reg, ratio, 0.0))))
         self.margin_all[check] = max(self.margin_all.get(check, 0.0), float(np.nanmax(ratio)) if ratio.size else 0.0)
@@ -206,7 +211,7 @@ def _job(args):
     os.dup2(fd, 2)
     os.close(fd)
     try:
-        res = _job_inner(fam, n, sel, quick, seed)
+        res = _job_dimer(n, sel, quick, seed) if fam == "c2dimer" else _job_inner(fam, n, sel, quick, seed)
     finally:
         os.dup2(saved, 2)
         os.close(saved)
@@ -229,7 +234,7 @@ def _job_inner(fam, n, sel, quick, seed):
     _threads(1)
     acc = _Acc((fam, n, sel))
     rots = grids.rotations(quick, seed)
-    ref_frames = [0, 2] if quick else [0, 1, 2]
+    ref_frames = [0, 2, 3] if quick else [0, 1, 2, 3]     # 3 = the target base itself: targets are exact rigid copies
     refs, b, info = C.base_pair(fam, n, seed)
     off = info["offset"]
     fr, labels = C.target_frames(b, rots, C.TRANSLATIONS, off)          # (F, n, 3) float32
@@ -387,7 +392,7 @@ def _job_inner(fam, n, sel, quick, seed):
     # ---------------------------------------------------------------- F: lprmsd with labels fixed
     excluded_lp = 0
     if sel in ("none", "equal"):
-        f = ref_frames[-1]
+        f = 2
         o = ora[(f, False)]
         first = 0 if ai is None else int(ai[0])
         g = np.array(md.lprmsd(_mk(T), _mk(Rf), f, atom_indices=None if ai is None else ai.copy(),
@@ -507,9 +512,89 @@ def _job_inner(fam, n, sel, quick, seed):
     for f in ref_frames:
         for c in ora[(f, False)]["cls"]:
             cls_count[str(c)] = cls_count.get(str(c), 0) + 1
+    ox = ora[(C.EXACT_REF_FRAME, False)]
+    exact_copy = int((ox["msd"] < 1e-20).sum())                                  # target frame is an exact rigid copy
+    exact_half = int(((ox["msd"] < 1e-20) & (ox["q0"] < 1e-9)).sum())           # ... by an exact half-turn
     return dict(evals=acc.evals, nontrivial=len(nontrivial), records=acc.records(quick, seed), margin=acc.margin,
                 margin_all=acc.margin_all, counts=acc.counts, sample=sample, threads=threads, frames=F,
-                bit_identical=bit_identical, class_count=cls_count, excluded_lp=excluded_lp)
+                bit_identical=bit_identical, class_count=cls_count, excluded_lp=excluded_lp,
+                exact_copy_frames=exact_copy, exact_copy_half_turn_frames=exact_half)
+
+
+def _job_dimer(n, layout, quick, seed):
+    """C2 dimer: superposing subunit B (target selection) onto subunit A (reference selection) needs an exact
+    half-turn about x, y or z; every frame of one target trajectory is one (axis, centre, translation)."""
+    import mdtraj as md
+    from vlib.refmodels import rmsd_confs as C
+    from vlib.refmodels import rmsd_kabsch as K
+
+    threads = _threads(OMP_THREADS)
+    _threads(1)
+    acc = _Acc(("c2dimer", n, layout))
+    D = C.c2_dimer(n, layout, seed)
+    T, labels, idxA, idxB, ai, rai = D["xyz"], D["labels"], D["idxA"], D["idxB"], D["ai"], D["rai"]
+    F, nt = T.shape[0], T.shape[1]
+    ne = D["n_exact"]
+    Rf = T[:ne].copy()                                   # reference: the untranslated dimers (A is the same in all)
+    lab = lambda i: "frame %d (B = half-turn image of A about %s through centre %d, transl %g)" % ((i,) + tuple(labels[i]))
+    cls = np.array(["axis=%s" % l[0] for l in labels])
+    magT, magR = float(np.abs(T).max()), float(np.abs(Rf).max())
+    k4 = -(-n // 4)
+    T64 = T.astype(np.float64)
+    if nt <= 80:
+        pi, pj = np.triu_indices(nt, 1)
+    else:
+        offs = [1, 2, 3, 5, 8, 13, 21, 34, 55, 89, 144, 233, 377]
+        pi = np.concatenate([np.arange(nt)] * len(offs))
+        pj = np.concatenate([(np.arange(nt) + d) % nt for d in offs])
+    d_before = np.sqrt(((T64[:, pi] - T64[:, pj]) ** 2).sum(-1))
+    cenT = T64[:, ai].mean(axis=1, keepdims=True)
+    rmax = np.sqrt(((T64 - cenT) ** 2).sum(-1)).max(axis=1)
+    o = K.kabsch(T64[:, ai], Rf[0, rai].astype(np.float64))
+    o["tol"] = _tol_msd(o, n, magT, magR)
+    exact = int((o["msd"][:ne] < 1e-20).sum())
+    for f in ([0, ne - 1] if quick else range(ne)):
+        for par in (False, True):
+            g = np.array(_par(par, md.rmsd, _mk(T), _mk(Rf), f, atom_indices=ai.copy(), ref_atom_indices=rai.copy()),
+                         dtype=np.float64)
+            acc.add("c2dimer.md.rmsd|vs-oracle", cls, np.abs(g * g - o["msd"]) / o["tol"],
+                    lambda i, g=g, f=f, par=par: "ref frame %d parallel=%s %s: md.rmsd(B onto A)=%.9g float64 minimum=%.9g" % (
+                        f, par, lab(i), g[i], np.sqrt(o["msd"][i])))
+            t, r = _mk(T), _mk(Rf)
+            before = r.xyz.copy()
+            ret = _par(par, t.superpose, r, f, atom_indices=ai.copy(), ref_atom_indices=rai.copy())
+            acc.flag("c2dimer.superpose|reference-modified", "any", np.array_equal(r.xyz, before) and ret is t,
+                     "ref frame %d parallel=%s: reference changed by superpose" % (f, par))
+            X = t.xyz.astype(np.float64)
+            e = EPS * (16 * rmax + max(float(np.abs(t.xyz).max()), magR))
+            dd = np.abs(np.sqrt(((X[:, pi] - X[:, pj]) ** 2).sum(-1)) - d_before).max(axis=1)
+            acc.add("c2dimer.superpose|distances", cls, dd / (2 * e),
+                    lambda i, dd=dd, e=e, f=f, par=par: "ref frame %d parallel=%s %s: an interatomic distance changed by %.3g nm "
+                    "(tol %.3g)" % (f, par, lab(i), dd[i], 2 * e[i]))
+            fit = K.kabsch(T64, X)
+            acc.add("c2dimer.superpose|proper-motion", cls, np.sqrt(fit["msd"]) / (2 * e),
+                    lambda i, fit=fit, f=f, par=par: "ref frame %d parallel=%s %s: best proper rigid fit of new onto old coordinates "
+                    "leaves rmsd %.3g" % (f, par, lab(i), np.sqrt(fit["msd"][i])))
+            rstar = np.sqrt(o["msd"])
+            hi = np.sqrt(o["msd"] + 2 * (k4 + 5) * EPS * (o["Ga"] + o["Gb"]) / n) + e
+            pm = np.sqrt(K.plain_msd(X[:, ai], Rf[f, rai].astype(np.float64)))
+            acc.add("c2dimer.superpose|unfitted-rmsd", cls, np.maximum((pm - rstar) / (hi - rstar), (rstar - pm) / e),
+                    lambda i, pm=pm, hi=hi, rstar=rstar, f=f, par=par: "ref frame %d parallel=%s %s: rmsd of subunit B to the reference's "
+                    "subunit A after superpose(atom_indices=B, ref_atom_indices=A) = %.9g, float64 minimum = %.9g (accepted up "
+                    "to %.9g)" % (f, par, lab(i), pm[i], rstar[i], hi[i]))
+            # frames built with the same axis and centre as reference frame f: the whole dimer maps onto itself with
+            # the subunits exchanged, so A must land on the reference's B as well
+            same = np.array([labels[i][:2] == labels[f][:2] for i in range(F)])
+            pmA = np.sqrt(K.plain_msd(X[same][:, idxA], Rf[f, idxB].astype(np.float64)))
+            acc.add("c2dimer.superpose|subunits-exchanged", cls[same], pmA / hi[same],
+                    lambda j, pmA=pmA, f=f, par=par, same=same: "ref frame %d parallel=%s %s: subunit A is %.9g nm (rms) from the "
+                    "reference's subunit B after the C2 operation" % (f, par, lab(int(np.where(same)[0][j])), pmA[j]))
+    sample = {"family": "c2dimer", "n_atoms_per_subunit": n, "layout": layout, "atom_indices": ai[:4].tolist(),
+              "ref_atom_indices": rai[:4].tolist(), "axis": labels[2][0], "centre_index": labels[2][1],
+              "A0": T[2, idxA[0]].tolist(), "B0": T[2, idxB[0]].tolist(), "oracle_rmsd_B_onto_A": float(np.sqrt(o["msd"][2]))}
+    return dict(evals=acc.evals, nontrivial=0, records=acc.records(quick, seed), margin=acc.margin,
+                margin_all=acc.margin_all, counts=acc.counts, sample=sample, threads=threads, frames=F,
+                bit_identical=[0, 0], class_count={}, excluded_lp=0, exact_half_turn_frames=exact)
 
 
 # ------------------------------------------------------------------------------------------------ run / replay
@@ -518,6 +603,7 @@ def _jobs(ctx):
     ns = C.N_ATOMS_QUICK if ctx.quick else C.N_ATOMS
     jobs = [(fam, n, sel, ctx.quick, ctx.seed, ctx.scratch)
             for n in sorted(ns, reverse=True) for fam in C.FAMILIES for sel in C.SELECTIONS]
+    jobs += [("c2dimer", n, lay, ctx.quick, ctx.seed, ctx.scratch) for n in sorted(ns, reverse=True) for lay in C.DIMER_LAYOUTS]
     return jobs, ns
 
 
@@ -526,7 +612,7 @@ def run(ctx):
     from vlib.refmodels import rmsd_confs as C
     jobs, ns = _jobs(ctx)
     results = ctx.pmap(_job, jobs)
-    evals = nontrivial = unconv = excluded_lp = 0
+    evals = nontrivial = unconv = excluded_lp = exact_dimer = exact_copy = exact_half = 0
     margin, margin_all, counts, cls_count = {}, {}, {}, {}
     bit = [0, 0]
     samples = []
@@ -546,7 +632,11 @@ def run(ctx):
             counts[k] = counts.get(k, 0) + v
         for k, v in res["class_count"].items():
             cls_count[k] = cls_count.get(k, 0) + v
-        if job[0] in ("mirror", "offset500", "bonded") and job[1] in (5, 65) and job[2] in ("none", "diffsets"):
+        exact_dimer += res.get("exact_half_turn_frames", 0)
+        exact_copy += res.get("exact_copy_frames", 0)
+        exact_half += res.get("exact_copy_half_turn_frames", 0)
+        if (job[0] in ("mirror", "offset500", "bonded") and job[1] in (5, 65) and job[2] in ("none", "diffsets")) or \
+                (job[0] == "c2dimer" and job[1] == 5):
             samples.append(res["sample"])
     ctx.assume("numpy float64 SVD (LAPACK) is the trusted oracle; optimality is checked on the enumerated family only")
     ctx.assume("OpenMP team of %d threads inside each worker for parallel=True" % results[0]["threads"])
@@ -558,16 +648,22 @@ def run(ctx):
                 "with a stated relation; distinct_nontrivial counts distinct (family, n_atoms, selection, reference frame, "
                 "rotation+translation variant, de-duplicated by the frame's float32 content) whose float64 optimal RMSD exceeds 1e-6 nm "
                 "(set-counted per job, jobs are disjoint)",
-        "samples": samples[:6],
+        "samples": [x for x in samples if x.get("family") == "c2dimer"][:2] + [x for x in samples if x.get("family") != "c2dimer"][:6],
         "exhaustive": True,
         "axes": {"family": C.FAMILIES, "n_atoms": ns, "selection": C.SELECTIONS,
                  "rotations": len(grids.rotations(ctx.quick, ctx.seed)), "translations_nm": C.TRANSLATIONS,
-                 "reference_frames": [0, 2] if ctx.quick else [0, 1, 2], "parallel": [False, True], "precentered": [False, True]},
+                 "reference_frames": [0, 2, 3] if ctx.quick else [0, 1, 2, 3], "parallel": [False, True],
+                 "precentered": [False, True], "exact_rigid_copy_reference_frame": C.EXACT_REF_FRAME,
+                 "c2dimer": {"layouts": C.DIMER_LAYOUTS, "axes": C.DIMER_AXES, "centres": C.DIMER_CENTRES,
+                             "translations_nm": C.TRANSLATIONS, "n_atoms_per_subunit": ns}},
+        "c2dimer_frames_with_exact_half_turn_optimum": int(exact_dimer),
+        "target_frames_exact_rigid_copy_of_reference_frame_3": int(exact_copy),
+        "of_those_optimal_rotation_exact_half_turn": int(exact_half),
         "jobs": len(jobs),
-        "frames_per_target": results[0]["frames"],
+        "frames_per_target": results[0]["frames"], "frames_per_dimer_target": results[-1]["frames"],
         "evaluations_by_check": counts,
         "max_err_over_tol": max(margin.values()) if margin else 0.0,
-        "max_err_over_tol_by_check_regular_class": {k: round(v, 4) for k, v in sorted(margin.items())},
+        "max_accepted_err_over_tol_by_check": {k: round(v, 4) for k, v in sorted(margin.items())},
         # includes the violating (known-finding) cases; capped at 1e6 (F3 rotates memory it races on: its garbage varies)
         "max_err_over_tol_by_check_all_classes": {k: (round(min(v, 1e6), 4) if np.isfinite(v) else repr(v))
                                                   for k, v in sorted(margin_all.items())},
